@@ -1,5 +1,6 @@
 import PGT.Proofs.ToFlat
 import PGT.Proofs.FromFlat
+import PGT.Proofs.ToInPlace
 /-
 C08 / C09 share the in-place behaviour of the CopyTo templates. This file: C08 (apply echo).
 Full statement: `C08_full`. Proved: the in-place scalar template (`primBody_reuse`: an existing well-typed value is
@@ -35,5 +36,57 @@ theorem C08_scalar_echo (info : FieldInfo) (k : PrimK) (obj : GoVal) (u n : Bool
   intro hu hn hcp
   subst hu hn hcp
   rfl
+
+-- ====================================================================================================
+-- the CopyTo step of the echo, every template at every depth
+
+/-- every generated attribute of a result that follows a struct is known (top level of the message) -/
+theorem follows_known : ∀ (fs : List Field) (v : GoVal) (prev cur : List (String × TfVal)),
+    followsFields fs v prev cur = true → ∀ f ∈ fs, f.info.kind ≠ .custom → f.info.isPlaceholder = false →
+    (f.info.kind = .primitive → f.info.isNullable = false →
+        ¬ (f.info.parentIsOptionalEmbed = true ∧ parentIsNil f.info v = true) →
+        ∃ a, cur.lookup f.info.nameSnake = some a ∧ isUnknown a = false) ∧
+    (f.info.kind = .object → ∃ a, cur.lookup f.info.nameSnake = some a ∧ isUnknown a = false)
+  | [], _, _, _, _, f, hf, _, _ => by simp at hf
+  | g :: rest, v, prev, cur, h, f, hf, hc, hph => by
+    unfold followsFields at h
+    simp only [Bool.and_eq_true] at h
+    simp only [List.mem_cons] at hf
+    rcases hf with rfl | hf
+    · have h1 := h.1
+      rw [followsField_eq] at h1
+      cases hl : cur.lookup f.info.nameSnake with
+      | none => simp [hl] at h1
+      | some a =>
+        simp only [hl] at h1
+        obtain ⟨info, mv, msg, sub⟩ := f
+        simp only at hc hph hl
+        unfold followsVal at h1
+        refine ⟨?_, ?_⟩
+        · intro hk hn hemb
+          simp only [hk, followsPrim, hph, Bool.false_eq_true, if_false, hn] at h1
+          have hnn : (info.parentIsOptionalEmbed && parentIsNil info v) = false := by
+            cases h1' : info.parentIsOptionalEmbed <;> cases h2 : parentIsNil info v <;> simp_all
+          simp only [hnn, Bool.false_eq_true, if_false, Bool.and_eq_true] at h1
+          refine ⟨a, rfl, ?_⟩
+          cases a <;> simp_all [isUnknown]
+        · intro hk
+          simp only [hk, followsObj] at h1
+          refine ⟨a, rfl, ?_⟩
+          cases a <;> simp_all [isUnknown]
+    · exact follows_known rest v prev cur h.2 f hf hc hph
+
+/-- **C08, the CopyTo step leaves nothing unknown** – for every template at every nesting depth, every plan object (a
+`Target`: shaped values with unknown / null flags anywhere) and every typed struct – whatever CopyFrom decoded: the call
+returns no diagnostic and the result follows the struct (`C09_step`), in particular every scalar and message attribute it
+visits is known afterwards; lists and maps are known with exactly the struct's elements. -/
+theorem C08_copyTo_step (m : Msg) (s : GoVal) (atys : List (String × TfTy)) (u n : Bool) (as : Option (List (String × TfVal)))
+    (hs : ToOKs m.fields s atys) (hp : ShapedAttrs m.fields (as.getD []) atys) :
+    ∃ r as', copyTo m s (.obj u n as (some atys)) = .ok r ∧ r.diags = [] ∧ r.tf = .obj false false (some as') (some atys) ∧
+      followsFields m.fields s (as.getD []) as' = true := by
+  obtain ⟨st', hrun, hd, _, hall, _, _⟩ := toFields_inplace m.fields s atys { attrs := as.getD [] } hs hp
+  refine ⟨{ tf := .obj false false (some st'.attrs) (some atys), diags := st'.diags, hooks := st'.hooks }, st'.attrs, ?_,
+    by simpa using hd, rfl, followsFields_of_forall m.fields s _ _ hall⟩
+  simp [copyTo, hrun]
 
 end PGT.Props.C08
